@@ -14,11 +14,12 @@ import Driver.OpsGridFS
 import Driver.OpsSpec
 import Driver.OpsConc
 import Driver.OpsSeq
+import Driver.OpsRetain
 open Lean
 namespace Driver
 
 def allOps : List (String × Op) :=
-  opsCompare ++ opsMatch ++ opsApply ++ opsCodec ++ opsProject ++ opsFS ++ opsGridFS ++ opsSpec ++ Conc.opsConc
+  opsCompare ++ opsMatch ++ opsApply ++ opsCodec ++ opsProject ++ opsFS ++ opsGridFS ++ opsSpec ++ Conc.opsConc ++ Retain.opsRetain
 
 /-- the driver state: the model system(s) of `api.*`/`sess.*` and the Spec state of `seq.*` -/
 structure MState where
